@@ -376,7 +376,13 @@ func TestVerifC21(t *testing.T) {
 			total *= 1 << uint(opts)
 		}
 		for g := 0; g < total; g++ {
-			for place := 0; place < 1<<uint(k); place++ {
+			for place0 := 0; place0 < 2<<uint(k); place0++ {
+				// second half of the placements (every third graph, k >= 2): the LAST report carries the package hash of the first —
+				// two different reports of one package in the same block / queue (GP 12.7 drops a record whose own package is selected)
+				place, dupe := place0&(1<<uint(k)-1), place0>>uint(k) == 1
+				if dupe && (k < 2 || g%3 != 0) {
+					continue
+				}
 				ci := gi
 				gi++
 				if !h.Mine("graph", ci) {
@@ -387,6 +393,10 @@ func TestVerifC21(t *testing.T) {
 				hs := make([]vH, k)
 				for i := range hs {
 					hs[i] = vHash(0xA0, i)
+				}
+				if dupe {
+					hs[k-1] = hs[0]
+					h.Inc("graphs_with_two_reports_of_one_package")
 				}
 				reports := map[vH]types.WorkReport{}
 				st := vAccState{xi: make([][]vH, E), rdy: make([][]vRec, E)}
@@ -422,10 +432,10 @@ func TestVerifC21(t *testing.T) {
 						W = append(W, w)
 					}
 				}
-				if _, ok := vCompare(h, "graph", ci, st, reports, W, tau, tauP, -1, true); ok {
+				if _, ok := vCompare(h, "graph", ci, st, reports, W, tau, tauP, -1, !dupe); ok {
 					h.Inc("graphs_compared")
 				}
-				h.Distinct("graph", k, g, place)
+				h.Distinct("graph", k, g, place0)
 				if ci == 70 {
 					h.Sample(map[string]any{"stratum": "graph", "reports": k, "graph_code": g, "placement": place})
 				}
